@@ -96,6 +96,7 @@ fn on_batch(b: Q) -> Ready<Result<(), BatchError<Q>>> {
 }
 
 fn wait(d: Duration) -> Ready<()> {
+    assert_unlocked();
     unsafe {
         let i = WAITS;
         assert!(i < MAXA, "more waits than the retry budget allows");
